@@ -67,7 +67,7 @@ void finish_op(World& W, int wi)
     }
     if (s.kind == SKind::MacroStatic || s.kind == SKind::MacroDynamic) { if (s.evaluated) x.has_logged = true; }
     else x.has_logged = true;
-    if (!s.accepted && !s.threw && (s.kind == SKind::Normal || is_bt_kind(s.kind) || s.kind == SKind::Named || s.kind == SKind::Dynamic || s.kind == SKind::RuntimeMeta)) ++x.drops_unreported;
+    if (!s.accepted && !s.threw && (s.kind == SKind::Normal || is_bt_kind(s.kind) || s.kind == SKind::Named || s.kind == SKind::Dynamic || s.kind == SKind::RuntimeMeta || s.kind == SKind::RtBadSpec)) ++x.drops_unreported;
     if (s.immediate && s.accepted)
     {
       // log_statement<immediate_flush> called flush_log() after the enqueue: when it returns, this statement and everything
@@ -300,8 +300,10 @@ void op_log(World& W, int wi, bool in_burst, int ypoint, int logger_override = -
   if (kind_override >= 0) s.kind = static_cast<SKind>(kind_override);
   else if (is_prop("C10"))
   {
-    switch (c.weighted({6, 1, 1, 2, 1, 3, 1, 1}))
+    switch (c.weighted({6, 1, 1, 2, 1, 3, 1, 1, 1, 1}))
     {
+    case 9: s.kind = SKind::RtBadSpec; break;   // LOG_RUNTIME_METADATA that cannot be formatted
+    case 8: s.kind = SKind::RuntimeMeta; break; // healthy LOG_RUNTIME_METADATA between the faulty statements
     case 7: s.kind = SKind::NamedBadSpec; break;
     case 0: break;
     case 5: s.kind = SKind::Named; break;
@@ -341,13 +343,13 @@ void op_log(World& W, int wi, bool in_burst, int ypoint, int logger_override = -
   }
   if (is_bt_kind(s.kind) || s.kind == SKind::BtNoInit || s.kind == SKind::NamedBtNoInit) s.level = 9;
   if (s.kind == SKind::Named) s.level = 4;
-  if (s.kind == SKind::BadTemplate || s.kind == SKind::BadSpec || s.kind == SKind::NamedBadSpec || s.kind == SKind::BtNoInit || s.kind == SKind::NamedBtNoInit ||
+  if (s.kind == SKind::BadTemplate || s.kind == SKind::BadSpec || s.kind == SKind::NamedBadSpec || s.kind == SKind::RtBadSpec || s.kind == SKind::BtNoInit || s.kind == SKind::NamedBtNoInit ||
       (s.kind == SKind::Bomb && s.bomb_kind != 0))
   {
     s.faulty = true;
     ++W.injected_faults;
   }
-  if (s.kind == SKind::BadTemplate || s.kind == SKind::BadSpec || s.kind == SKind::NamedBadSpec || s.kind == SKind::Bomb) s.level = 4;
+  if (s.kind == SKind::BadTemplate || s.kind == SKind::BadSpec || s.kind == SKind::NamedBadSpec || s.kind == SKind::RtBadSpec || s.kind == SKind::Bomb) s.level = 4;
   bool is_macro = (s.kind == SKind::MacroStatic || s.kind == SKind::MacroDynamic);
   if (!is_macro) s.seq = x.next_seq++;
   bool never_fits_ok = kDropping && is_prop("C08");
@@ -362,8 +364,9 @@ void op_log(World& W, int wi, bool in_burst, int ypoint, int logger_override = -
   if (s.kind == SKind::Dynamic && s.padlen > 0) --s.padlen; // the run-time level travels as one more byte: keep the drawn total
   // runtime metadata: "rt.cpp" (7 B as a C string), line (4 B), "fn" (3 B) and the run-time level (1 B) travel as well
   constexpr uint32_t kRtExtra = 7 + 4 + 3 + 1;
-  if (s.kind == SKind::RuntimeMeta) s.padlen = s.padlen > kRtExtra ? s.padlen - kRtExtra : 0;
-  s.encoded = kStmtFixed + s.padlen + (s.kind == SKind::Bomb ? 32 : 0) + (s.kind == SKind::Dynamic ? 1 : 0) + (s.kind == SKind::RuntimeMeta ? kRtExtra : 0);
+  bool const rt_kind = s.kind == SKind::RuntimeMeta || s.kind == SKind::RtBadSpec;
+  if (rt_kind) s.padlen = s.padlen > kRtExtra ? s.padlen - kRtExtra : 0;
+  s.encoded = kStmtFixed + s.padlen + (s.kind == SKind::Bomb ? 32 : 0) + (s.kind == SKind::Dynamic ? 1 : 0) + (rt_kind ? kRtExtra : 0);
   s.issue_idx = W.op_counter;
   // C06 / C03: one statement in ten is logged with the immediate-flush flavour of the log call (QUILL_IMMEDIATE_FLUSH)
   if (s.kind == SKind::Normal && kind_override < 0 && (is_prop("C06") || is_prop("C03")) && c.pick(10) == 9)
@@ -410,6 +413,7 @@ void op_log(World& W, int wi, bool in_burst, int ypoint, int logger_override = -
     if (kind == SKind::NamedBtNoInit) d += ",named-bt-noinit";
     if (kind == SKind::Dynamic) d += ",dyn";
     if (kind == SKind::RuntimeMeta) d += ",runtime-metadata";
+    if (kind == SKind::RtBadSpec) d += ",runtime-metadata-badspec";
     if (immediate) d += ",immediate-flush";
     if (is_macro) d += std::string{","} + (dynamic ? "dyn:" : "") + kLevelCodes[level];
     else if (is_prop("C18")) d += std::string{","} + kLevelCodes[level];
@@ -472,6 +476,17 @@ void op_log(World& W, int wi, bool in_burst, int ypoint, int logger_override = -
           else
           {
             xp->res_accepted = lg->template log_statement<false, true>(static_cast<quill::LogLevel>(level), &kMdRuntime, wid, seq, pad, "rt.cpp", 77, "fn");
+          }
+          break;
+        case SKind::RtBadSpec:
+          if constexpr (kDropping)
+          {
+            char const* cpad = pad.c_str();
+            xp->res_accepted = lg->template log_statement<false, true>(static_cast<quill::LogLevel>(level), &kMdRuntimeBad, wid, seq, cpad, "rt.cpp", 77, "fn");
+          }
+          else
+          {
+            xp->res_accepted = lg->template log_statement<false, true>(static_cast<quill::LogLevel>(level), &kMdRuntimeBad, wid, seq, pad, "rt.cpp", 77, "fn");
           }
           break;
         case SKind::Dynamic:
